@@ -47,6 +47,9 @@ RULE = ("cases = (a) module lists (the names ssh.connect packages plus extra and
         "modules and the options intact; client verbosity is a dimension of every case (level from the rotation "
         "0,0,3,0,2,0,3,1 shifted by the seed, stored in the replay): the one-liner the real ssh.connect builds at that "
         "level is the program the remote side executes, over segmented (in the child interpreter also delayed) delivery; "
+        "(g) real command lines (with and without --ns-hosts/--to-ns, IPv4 and IPv6 targets, -N, -H, latency options) driven "
+        "through the real cmdline.main/client.main to _main, the values formed there sent through the real serialisation, "
+        "remote exec and server.main binding and required to arrive equal and of a plain built-in type; "
         "several sessions opened by one process (the same "
         "options twice, different options, both transports), each upload decoded on its own; "
         "non-trivial = a read crossed a segment boundary, an error branch was taken, or a trace was decided; "
@@ -1427,6 +1430,142 @@ def main_check(ctx, case, events, outcome, got, log):
                                'arguments of main bound by the real server.main parameter list', kind='input')
 
 
+# ---------------------------------------------------------------- (g) the option values the command line really produces
+
+CMDLINES = [
+    ['-r', 'host', '10.0.0.0/8'],
+    ['-r', 'host', '--ns-hosts', '10.9.8.7', '--to-ns', '192.0.2.1:53', '10.0.0.0/8'],
+    ['-r', 'host', '--ns-hosts', '10.9.8.7', '--to-ns', '[2001:db8::1]:5353', '10.0.0.0/8'],
+    ['-r', 'host', '--ns-hosts', '10.9.8.7,10.9.8.8', '--to-ns', '192.0.2.9', '-N', '-H', '10.0.0.0/8'],
+    ['-r', 'host', '--ns-hosts', '10.9.8.7', '10.0.0.0/8'],
+    ['-r', 'host', '--to-ns', '192.0.2.1:53', '10.0.0.0/8'],
+    ['-r', 'host', '--no-latency-control', '--latency-buffer-size', '1', '-N'],
+    ['-r', 'host', '--latency-buffer-size', '65536', '-H', '--ns-hosts', '10.9.8.7', '--to-ns', '127.0.0.1:5300', '0/0'],
+]
+
+
+def observe_cmdline(argv):
+    """The real cmdline.main -> client.main on this command line, up to its call of client._main: returns the
+    arguments _main is called with, by name (the firewall helper process is faked; no ssh, no root needed)."""
+    import inspect
+    import sshuttle.client as client
+    import sshuttle.cmdline as cmdline
+    import sshuttle.helpers as helpers
+    import sshuttle.methods as methods
+    import sshuttle.sdnotify as sdnotify
+    seen = {}
+    real_main = client._main
+
+    class Fw:
+        def __init__(self, method_name, sudo_pythonpath):
+            self.auto_nets = []
+            self.method = methods.get_method('nat')
+            self.method.set_firewall(self)
+            self.p = None
+
+        def setup(self, *a, **k):
+            pass
+
+        def done(self):
+            pass
+
+    def recorder(*a, **k):
+        seen.update(inspect.signature(real_main).bind(*a, **k).arguments)
+        return 0
+    saved = (client.FirewallClient, client._main, sdnotify.send, sys.argv, sys.stdout, sys.stderr, helpers.verbose,
+             helpers.logprefix, os.environ.pop('SSHUTTLE_ARGS', None))
+    client.FirewallClient, client._main, sdnotify.send = Fw, recorder, (lambda *a: False)
+    sys.argv = ['sshuttle', '--method', 'nat', '--disable-ipv6'] + list(argv)
+    sys.stdout, sys.stderr = io.StringIO(), io.StringIO()
+    err = None
+    try:
+        try:
+            cmdline.main()
+        except SystemExit as e:
+            err = 'exit %s: %s' % (e.code, sys.stderr.getvalue()[-200:])
+        except Exception as e:  # noqa
+            err = '%s: %s' % (type(e).__name__, e)
+    finally:
+        (client.FirewallClient, client._main, sdnotify.send, sys.argv, sys.stdout, sys.stderr, helpers.verbose,
+         helpers.logprefix) = saved[:8]
+        if saved[8] is not None:
+            os.environ['SSHUTTLE_ARGS'] = saved[8]
+        for k in ('tcp_listener', 'udp_listener', 'dns_listener'):
+            l = seen.get(k)
+            for half in (getattr(l, 'v4', None), getattr(l, 'v6', None)):
+                try:
+                    if half is not None:
+                        half.close() if hasattr(half, 'close') else None
+                except Exception:  # noqa
+                    pass
+    return seen, err
+
+
+PLAIN = (bool, int, type(None), str, list, tuple, float, bytes, dict)
+
+
+def cmdline_problems(argv, level, scratch):
+    """real command line -> real client.main -> real _main -> real ssh.connect -> real bootstrap/assembler ->
+    what server.main is entered with.  -> (problems [(key, expected, observed)], note)"""
+    okeys = client_option_keys()
+    with at_level(level):
+        seen, err = observe_cmdline(argv)
+    if not seen:
+        return [], 'client.main did not reach _main (%s)' % err      # not a case (e.g. no bindable port here)
+    opts = [(k, seen[k]) for k in okeys if k in seen]
+    files = {n: b'# m\n' for n in packaged_names()}
+    files['sshuttle.server'] = SERVER_STANDIN
+    obs = run_connect(dict(files=files, options=opts, level=level), scratch, via_main=True,
+                      server_chunks=[b'\0\0SSHUTTLE0001'], grants=[100], stop_at=3)
+    if is_artefact(obs.get('error')):
+        return [], obs['error']
+    shown = ['%s=%r' % (k, v) for k, v in opts]
+    if obs.get('error'):
+        return [('C18:cmdline:connect-raised', shown, obs['error'])], ''
+    argv2 = obs['popen'][0] if obs.get('popen') else []
+    m = re.search(r'stdin\.read\((\d+)\)', ' '.join(argv2))
+    nasm = int(m.group(1)) if m else 0
+    c1, c2, _fr = split_upload(obs['events'], nasm)
+    r = remote_run(c1 + c2, nasm, size_policy(None, 'all'), 8192, {'sshuttle.server', 'sshuttle.cmdline_options'},
+                   pyscript=argv2[2] if len(argv2) == 3 and argv2[1] == '-c' else None)
+    if r['end'] != 'done':
+        return [('C18:options:not-evaluable-remotely', shown,
+                 'the remote interpreter ended with %s while assembling (modules so far: %s)'
+                 % (r['end'], [n for n, _c in r['compiled']]))], ''
+    kind, ent = entered_with(r['main_args'])
+    if kind != 'ok':
+        return [('C18:options:not-evaluable-remotely', shown, '%s: %s' % (kind, ent))], ''
+    out = []
+    want = dict(opts)
+    for prm, v in ent:
+        if prm in want and (v != want[prm] or type(v) is not type(want[prm]) or type(v) not in PLAIN):
+            out.append(('C18:options:cmdline-value-differs', '%s=%r (%s)' % (prm, want[prm], type(want[prm]).__name__),
+                        '%s=%r (%s)' % (prm, v, type(v).__name__)))
+    for k in want:
+        if k not in dict(ent):
+            out.append(('C18:options:cmdline-value-differs', '%s=%r' % (k, want[k]), 'never handed to server.main'))
+    return out, ''
+
+
+def cmdline_cases(ctx, rng, scratch):
+    seen_keys = set()
+    for argv in CMDLINES:
+        level = next_level()
+        probs, note = cmdline_problems(argv, level, scratch)
+        ctx.count()
+        ctx.hist('cmdline' if not note else 'cmdline:skipped')
+        if note:
+            ctx.notes.append('cmdline %s: %s' % (' '.join(argv), note))
+        ctx.mark(('cmdline', argv, level))
+        for key, exp, ob in probs:
+            if key in seen_keys:
+                continue
+            seen_keys.add(key)
+            ctx.violation(key, case=dict(stream='cmdline', argv=list(argv), level=level), expected=exp, observed=ob,
+                          note='sshuttle %s: the session options client.main forms, through the real serialisation, remote '
+                               'exec and server.main binding' % ' '.join(argv), kind='input')
+
+
 # ---------------------------------------------------------------- (e) entering the real server.main
 
 _OBSERVED_KEYS = {}
@@ -2307,6 +2446,8 @@ def run(ctx):
             binding_case(ctx, distinct_options(rng, okeys), lg)
             ctx.count()
         logs.append(lg)
+        # (g) option values as the real command line produces them
+        cmdline_cases(ctx, rng, scratch)
         # (f) whole session starts: falsy option values, the win32 pipe transport with partial writes
         session_cases(ctx, rng, scratch, names, okeys, logs)
         if ctx.thorough:
@@ -2370,6 +2511,10 @@ def replay(ctx, rep):
             res = [(k, e, o) for _i, k, e, o in sessions_problems([c, c], scratch)]
             return bool(res), '; '.join('%s: %s' % (k, str(o)[:160]) for k, _e, o in res) or \
                 'the modules compiled remotely equal the client files and server.main is entered with the client\'s values'
+        if st == 'cmdline':
+            probs, note = cmdline_problems(case['argv'], case.get('level', 0), scratch)
+            return bool(probs), '; '.join('%s: expected %s observed %s' % (k, str(e)[:120], str(o)[:160]) for k, e, o in probs) or \
+                ('server.main is entered with the values the command line gives' + (' [%s]' % note if note else ''))
         if st == 'binding':
             opts = [tuple(o) for o in case['options']]
             kind, got = enter_main(opts)
